@@ -386,6 +386,69 @@ pub fn alphabet(cfg: &Cfg, uni: &[u32], with_readonly: bool) -> Vec<Op> {
     a
 }
 
+/// A history over thousands of entries: fill past 1024 / 4096 entries, touch, peek at the LRU
+/// end, shrink by thousands in one call (RawLRU), purge, refill.
+pub fn huge_history(kind: Kind, variant: usize, rng: &mut Rng) -> (Cfg, Vec<Op>, Vec<u32>) {
+    let big = if variant == 0 { 1500usize } else { 4500 };
+    let cfg = match kind {
+        Kind::Lru => Cfg::lru(big),
+        Kind::Slru => Cfg::slru(big / 2, big / 2 + 300),
+        Kind::TwoQ => Cfg::twoq(big, 0.3, 1.0),
+        Kind::Arc => Cfg::arc(big),
+        Kind::Wtlfu => Cfg::wtlfu(40, big / 2 + 200, big / 2, 20000, HKind::Ident),
+    };
+    let total = cfg.total();
+    let n = (total + total / 3) as u32;
+    let mut ops: Vec<Op> = vec![];
+    for k in 0..n {
+        ops.push(Op::Put(k));
+        if k % 3 == 0 && k > 10 {
+            ops.push(Op::Get(k - 7, k % 2 == 0));
+        }
+    }
+    // read-only calls right at the least-recent end of a full, large list
+    ops.push(Op::Len);
+    for k in [0u32, 1, 2, n - total as u32, n - total as u32 + 1, n - 1] {
+        ops.push(Op::PeekMut(k, false, false));
+        ops.push(Op::Peek(k, true));
+        ops.push(Op::Contains(k, false));
+    }
+    match kind {
+        Kind::Lru => {
+            ops.extend([Op::PeekLru, Op::PeekLruMut(false), Op::GetMru, Op::Put(n + 1), Op::Put(n + 2)]);
+            ops.push(Op::Iter(IterSpec { list: 0, fam: Fam::IterLru, steps: 6, pat: 0b010101, write: false, clone_at: 3, fin: 1 }));
+            // shrink by thousands in one call, then by a handful, then to zero and back
+            ops.extend([Op::Resize(total - 1100), Op::Put(n + 3), Op::Resize(10), Op::Put(n + 4), Op::PeekLru, Op::Resize(0), Op::Put(n + 5), Op::Resize(total), Op::Len]);
+            for k in 0..(total as u32 + 50) {
+                ops.push(Op::Put(k));
+            }
+            ops.extend([Op::GetLru, Op::RemoveLru, Op::Purge, Op::Len, Op::Put(1), Op::Put(2)]);
+        }
+        Kind::Slru => {
+            ops.extend([Op::PeekLruFrom(0), Op::PeekLruMutFrom(1, false), Op::PutProtected(n + 1), Op::PutProtected(3), Op::RemoveLruFrom(1), Op::RemoveLruFrom(0)]);
+            for k in 0..(n / 2) {
+                ops.push(Op::Get(k * 2, false));
+            }
+            ops.extend([Op::Purge, Op::Put(1)]);
+        }
+        _ => {
+            for k in 0..(n / 2) {
+                ops.push(Op::Put(k * 2));
+            }
+            for k in 0..200u32 {
+                ops.push(Op::Remove(n - 1 - k, false));
+            }
+            for k in 0..300u32 {
+                ops.push(Op::Put(n + k));
+            }
+            ops.extend([Op::Purge, Op::Put(1), Op::Get(1, false), Op::Put(2)]);
+        }
+    }
+    let _ = rng;
+    let uni: Vec<u32> = (0..n + 310).collect();
+    (cfg, ops, uni)
+}
+
 /// Directed scripts: short histories that reach the named branches of each policy's case
 /// split deterministically (and the configurations the unit tests never build).
 pub fn directed(kind: Kind) -> Vec<(Cfg, Vec<Op>, &'static str)> {
